@@ -337,7 +337,10 @@ def strategy(ctx):
         members[0]['how'] = 'base'
         members[0]['from'] = -1
         for _ in range(draw(st.integers(2, 6))):
-            idx = draw(st.integers(0, len(members) - 1))
+            # a member made by 'reapply' is final: moving its repeated text into a cdef() without
+            # override= (or into an included FFI) would make cffi refuse the input
+            parents = [i for i, m in enumerate(members) if not any(it.get('o') for it in m['cdefs'])]
+            idx = parents[draw(st.integers(0, len(parents) - 1))]
             kinds = _applicable(members[idx])
             for attempt in range(3):
                 kind = draw(st.sampled_from(kinds))
